@@ -55,14 +55,14 @@ var (
 	})
 	regResolveLogs = util.ToRegexRepl([]string{
 		// Resolve user variables
-		`/home/[^/]+/.cache`, `@{user_cache_dirs}`,
-		`/home/[^/]+/.config`, `@{user_config_dirs}`,
-		`/home/[^/]+/.local/share`, `@{user_share_dirs}`,
-		`/home/[^/]+/.local/state`, `@{user_state_dirs}`,
-		`/home/[^/]+/.local/bin`, `@{user_bin_dirs}`,
-		`/home/[^/]+/.local/lib`, `@{user_lib_dirs}`,
-		`/home/[^/]+/.ssh`, `@{HOME}/@{XDG_SSH_DIR}`,
-		`/home/[^/]+/.gnupg`, `@{HOME}/@{XDG_GPG_DIR}`,
+		`/home/[^/]+/\.cache`, `@{user_cache_dirs}`,
+		`/home/[^/]+/\.config`, `@{user_config_dirs}`,
+		`/home/[^/]+/\.local/share`, `@{user_share_dirs}`,
+		`/home/[^/]+/\.local/state`, `@{user_state_dirs}`,
+		`/home/[^/]+/\.local/bin`, `@{user_bin_dirs}`,
+		`/home/[^/]+/\.local/lib`, `@{user_lib_dirs}`,
+		`/home/[^/]+/\.ssh`, `@{HOME}/@{XDG_SSH_DIR}`,
+		`/home/[^/]+/\.gnupg`, `@{HOME}/@{XDG_GPG_DIR}`,
 		`/home/[^/]+/`, `@{HOME}/`,
 
 		// Resolve system variables
